@@ -90,6 +90,9 @@ def main():
         fn = rng.choice(files)
         src = open(os.path.join(REPO, "nmea2000", fn)).read().split("\n")
         i = rng.randrange(len(src))
+        # not inside a docstring: count triple quotes above the line
+        if sum(l.count('"""') for l in src[:i]) % 2 == 1 or '"""' in src[i]:
+            continue
         r = mutate_line(src[i], rng)
         if not r:
             continue
